@@ -32,6 +32,8 @@ package verifharness
 //                                                  transfer/channel-0) through the app's transfer route = aggregate middleware
 //                                                  over the real transfer application, on a cache context written iff the
 //                                                  acknowledgement is nil or a success (ibc-go core RecvPacket); <voucher> is checked
+//   gov <param key> <0|1>                       -> ok          governance: a real ParameterChangeProposal (subspace "aggregate", KEY, value) through
+//                                                  the gov router's "params" handler — the parameter is addressed by its store key
 //   restart                                     -> ok          the module goes through a genesis export / import: real ExportGenesis ->
 //                                                  JSON -> Validate -> the aggregate store is wiped -> real InitGenesis (bank, EVM, accounts stay)
 //   dump                                        -> E<0|1> T<contract>:<code>:<totalSupply>:<balances>:<pair> ... D<denom>:<supply>:<balances>:<pair addr>
@@ -50,6 +52,7 @@ import (
 	bankkeeper "github.com/cosmos/cosmos-sdk/x/bank/keeper"
 	banktypes "github.com/cosmos/cosmos-sdk/x/bank/types"
 	stakingtypes "github.com/cosmos/cosmos-sdk/x/staking/types"
+	paramproposal "github.com/cosmos/cosmos-sdk/x/params/types/proposal"
 	porttypes "github.com/cosmos/ibc-go/v3/modules/core/05-port/types"
 	"github.com/ethereum/go-ethereum/common"
 	"github.com/ethereum/go-ethereum/crypto"
@@ -105,7 +108,9 @@ type c11World struct {
 	extraAcct [][]byte // accounts observed by the oracle although they are not tracked (named in the message; the empty address)
 	// the oracle's OWN record of what governance switched off (independent of the flags the keeper stores)
 	govOff       map[common.Address]bool // contract of the pair -> last committed ToggleRelay left it off
-	govModuleOff bool                    // last committed EnableAggregate change was "off"
+	govModuleOff bool                    // the value last written under the parameter KEY EnableAggregate is false
+	govParam     map[string]bool         // parameter key -> value last written under it (by SetParams, genesis or a by-key proposal)
+	offByKey     bool                    // … and that write was a governance parameter change addressed by key
 	offRestarts  map[common.Address]int  // restarts since the pair was switched off
 	mw        porttypes.IBCModule // the app's ICS-20 route: aggregate middleware over the real transfer application
 	seq       uint64
@@ -176,6 +181,7 @@ func (w *c11World) reset() {
 	w.kinds = map[common.Address]string{}
 	w.hist = nil
 	w.govOff, w.offRestarts, w.govModuleOff = map[common.Address]bool{}, map[common.Address]int{}, false
+	w.govParam, w.offByKey = map[string]bool{"EnableAggregate": true, "EnableEVMHook": true}, false
 }
 
 func (w *c11World) seeDenom(d string) {
@@ -250,11 +256,18 @@ func (w *c11World) snap(ctx sdk.Context) *c11Snap {
 	s.enabled = w.app.AggregateKeeper.GetParams(ctx).EnableAggregate
 	accs := w.allAccts()
 	var sb strings.Builder
-	if s.enabled {
-		sb.WriteString("E1")
-	} else {
-		sb.WriteString("E0")
+	b01 := func(b bool) string {
+		if b {
+			return "1"
+		}
+		return "0"
 	}
+	// E / H: what the keeper reads (GetParams fields); K: what is stored under the two parameter KEYS
+	ss, _ := w.app.ParamsKeeper.GetSubspace(aggtypes.ModuleName)
+	var rawAgg, rawHook bool
+	ss.Get(ctx, aggtypes.ParamStoreKeyEnableAggregate, &rawAgg)
+	ss.Get(ctx, aggtypes.ParamStoreKeyEnableEVMHook, &rawHook)
+	sb.WriteString("E" + b01(s.enabled) + "H" + b01(w.app.AggregateKeeper.GetParams(ctx).EnableEVMHook) + "K" + b01(rawAgg) + b01(rawHook))
 	for _, c := range w.contracts {
 		ch := c11Hex(c)
 		acc := w.app.EvmKeeper.GetAccountWithoutBalance(ctx, c)
@@ -446,6 +459,9 @@ func (w *c11World) oracleMsg(r *Rec, m c11Msg, out string, s0, s1 *c11Snap, p c1
 	}
 	if (out == "ok" || out == "clean") && w.govModuleOff {
 		w.find(r, "C11:converted-while-module-disabled:"+kind, "a conversion was accepted although the last committed EnableAggregate change was OFF (the oracle's own record)", out, "rejected")
+	}
+	if w.offByKey && p.found && !w.govOff[p.addr] && out != "ok" && out != "clean" && out != "err basic" {
+		r.Count("convert.refused.module-disabled-by-key")
 	}
 	if p.found && w.govOff[p.addr] && out != "ok" && out != "clean" && out != "err basic" && w.offRestarts[p.addr] > 0 {
 		r.Count("convert.after-restart.refused-disabled")
@@ -859,7 +875,30 @@ func (w *c11World) apply(r *Rec, op string) string {
 		p := K.GetParams(w.ctx)
 		p.EnableAggregate = f[1] == "1"
 		K.SetParams(w.ctx, p)
-		w.govModuleOff = f[1] != "1"
+		w.govParam["EnableAggregate"] = f[1] == "1" // SetParams writes every field under its own key
+		w.govModuleOff, w.offByKey = f[1] != "1", false
+		return "ok"
+	case "gov":
+		// what governance does: a ParameterChangeProposal (subspace "aggregate", key, JSON value) executed by the handler
+		// the gov router has under the route "params"
+		key := str(f[1])
+		val := "false"
+		if f[2] == "1" {
+			val = "true"
+		}
+		content := paramproposal.NewParameterChangeProposal("c11", "c11", []paramproposal.ParamChange{paramproposal.NewParamChange(aggtypes.ModuleName, key, val)})
+		cctx, write := w.ctx.CacheContext()
+		var err error
+		pan, _ := safely(func() { err = w.app.GovKeeper.Router().GetRoute(paramproposal.RouterKey)(cctx, content) })
+		if pan || err != nil {
+			r.t.Fatalf("gov %s=%s: %v", key, val, err)
+		}
+		write()
+		w.govParam[key] = f[2] == "1"
+		if key == "EnableAggregate" {
+			w.govModuleOff, w.offByKey = f[2] != "1", f[2] != "1"
+		}
+		r.Count("param.by-key." + key + "." + val)
 		return "ok"
 	case "toggle":
 		if tp, err := K.ToggleRelay(w.ctx, str(f[1])); err == nil {
